@@ -393,7 +393,15 @@ class Ctx:
             up = pt.OpUp(pt.OpUpMode.OnCall) if s[1] == "oncall" else pt.OpUp(pt.OpUpMode.Explicit, pt.Int(1))
             return up.ensure_budget(pt.Int(s[2]), src)
         if k == "mcall":
-            return pt.InnerTxnBuilder.ExecuteMethodCall(app_id=pt.Int(1), method_signature=s[1], args=[self.arg(a) for a in s[2]])
+            fields = {
+                "fee": (pt.TxnField.fee, pt.Int(0)),
+                "note": (pt.TxnField.note, pt.Bytes("n")),
+                "oc": (pt.TxnField.on_completion, pt.OnComplete.NoOp),
+                "rekey": (pt.TxnField.rekey_to, pt.Global.zero_address()),
+                "accounts": (pt.TxnField.accounts, [pt.Txn.sender()]),
+            }
+            extra = {fields[x][0]: fields[x][1] for x in (s[3] if len(s) > 3 else [])}
+            return pt.InnerTxnBuilder.ExecuteMethodCall(app_id=pt.Int(1), method_signature=s[1], args=[self.arg(a) for a in s[2]], extra_fields=extra or None)
         if k == "pragma":
             return pt.Pragma(self.stmt(s[2]), compiler_version=s[1])
         if k == "itxn_arr":
